@@ -243,7 +243,13 @@ def gen_case(rng, rtype, vtype, sk, idx):
             c["equil"] = rng.choice([0, 1, 1, 2]) if N > 2 else rng.choice([0, 1])
     c["T"] = T
     hist = gen_history(rng, T)
-    names = CV_SETS[(rtype, vtype)]
+    names = list(CV_SETS[(rtype, vtype)])
+    if len(names) > 1 and rng.random() < 0.6:
+        # the variables are listed (and their per-variable parameters given) in another order than the names sort
+        rng.shuffle(names)
+        if names == sorted(names):
+            names.reverse()
+        c["opts"].add("vars_not_in_name_order")
     cfg = "colvarsTrajFrequency 1\n"
     cvs = []
     for n in names:
